@@ -75,8 +75,12 @@ class C06(Engine):
     }
     expected_probes = ["pipe_full_backpressure", "reader_blocked", "epipe", "size_over_pipe", "boundary_1024"]
 
+    hot_sites = ()
+
     def warmup(self):
         procworld.warm()
+        if not self.hot_sites:
+            self.hot_sites = procworld.profile_sites(self, keep=("readers.py", "posix.py", "pipelines.py", "proxies.py", "pipes.py"))
 
     # ------------------------------------------------------------------ generation
     def gen_case(self, rng, tier, seed):
@@ -101,6 +105,11 @@ class C06(Engine):
             "proc_freq": rng.choice((1e-4, 1e-4, 1e-3, 1e-5, 0.01)),
             "clock_seed": rng.randrange(1 << 30),
         }
+        if self.hot_sites and rng.random() < 0.5:
+            knobs["policy"] = "random"
+            knobs["p"] = rng.choice((0.0, 0.02, 0.1))
+            knobs["sites"] = procworld.pick_sites(rng, self.hot_sites, rng.choice((2, 4, 8)))
+            knobs["hold_len"] = rng.choice((300, 3000, 30000))
         total = sum(s_["payload"]["n"] for s_ in stages if "payload" in s_)
         knobs["max_steps"] = 300_000 + 25 * total
         acc = list(ACCESSORS)
